@@ -7,7 +7,7 @@ From Coq Require Import List Arith Bool ZArith Ring_theory.
 Import ListNotations.
 Require Import Base.C01_Sums Model.C01_Assembly Proofs.C01_AssemblyProofs Model.C19_Blocks Proofs.C19_BlocksProofs.
 Require Import Model.C19_Composite Proofs.C19_CompositeProofs.
-Require Import Model.C19_CompBasis Proofs.C19_CompBasisProofs Proofs.C19_InverseProofs.
+Require Import Model.C19_CompBasis Proofs.C19_CompBasisProofs Proofs.C19_InverseProofs Model.C19_FormBlock Model.C19_Scatter.
 Require Import Gen.C01Gen Dyn.C01Tie Gen.C19Gen Gen.C19Comp Dyn.C19Tie Dyn.C19Bmat Dyn.C19CompTie.
 
 (* ---------- ElementVector: local index i of the vector element <-> (scalar basis function ind, component n) ---------- *)
@@ -224,7 +224,99 @@ Section C19.
     (forall M, In M L -> length (inv M) = n0 /\ forall i, i < n0 -> length (nth i (inv M) []) = n1) ->
     exists d', gen_inverse_with R rO inv data [n0; n1] = Some d' /\ gen_tolocal R rO d' [n0; n1] = Some (map inv L).
   Proof. exact (gen_inverse_spec R rO). Qed.
+
+  (* ---------- shared DOFs (equal_dofnum = True, the @ operator, N34): one numbering for all components, the matrix is the SUM
+     over all (test a, trial b) of the component weak forms (each is va^T A^{a,b} ub by C01_bilinear_weak_form) ---------- *)
+  Theorem C19_shared_dofs_matrix_is_sum : forall (form : VC -> VC -> W -> R),
+    (forall x y v w, form (vaddC x y) v w = radd (form x v w) (form y v w)) ->
+    (forall s x v w, form (vscaleC s x) v w = rmul s (form x v w)) ->
+    (forall u x y w, form u (vaddC x y) w = radd (form u x w) (form u y w)) ->
+    (forall s u x w, form u (vscaleC s x) w = rmul s (form u x w)) ->
+    (forall n x y, inj n (vadd x y) = vaddC (inj n x) (inj n y)) ->
+    (forall n s x, inj n (vscale s x) = vscaleC s (inj n x)) ->
+    forall (b0 : C01_Assembly.basis R VV) (rest : list (C01_Assembly.basis R VV)) (w : nat -> nat -> W) (u v : nat -> R),
+    let bs := b0 :: rest in
+    (forall n, n < length bs -> wf_basis (nth n bs b0) /\ bnelems (nth n bs b0) = bnelems b0 /\ bnq (nth n bs b0) = bnq b0) ->
+    (forall n, n < length bs -> bN (nth n bs b0) = bN b0) ->
+    exists C cC AC,
+      gen_composite_basis R VV VC inj b0 rest true = Some C /\ bN C = bN b0 /\
+      gen_bilinear_assemble R rO radd rmul VC W form w C None = Some cC /\ gen_to_dense2 R rO radd cC = Some AC /\
+      vAu R rO radd rmul v AC u (bN C) (bN C)
+      = sumn rO radd (length bs) (fun a => sumn rO radd (length bs) (fun b =>
+          integrate R rO radd rmul (bnelems b0) (bnq b0)
+            (fun e q => form (inj b (interp R rO VV vadd vscale (nth b bs b0) u e q)) (inj a (interp R rO VV vadd vscale (nth a bs b0) v e q)) (w e q))
+            (bdx b0))).
+  Proof. exact (gen_shared_dofs_matrix_is_sum R rO rI radd rmul rsub ropp Rth VV VC W vadd vscale vaddC vscaleC inj). Qed.
+
+  (* ---------- CompositeBasis matrix = ElementComposite matrix permuted by concatenate(split_indices): for coefficient vectors
+     related by x_EC[split_indices[n][k]] = x_CB[N_0 + ... + N_{n-1} + k] the two quadratic forms agree ---------- *)
+  Theorem C19_compositebasis_permutation : forall (form : VC -> VC -> W -> R),
+    (forall x y v w, form (vaddC x y) v w = radd (form x v w) (form y v w)) ->
+    (forall s x v w, form (vscaleC s x) v w = rmul s (form x v w)) ->
+    (forall u x y w, form u (vaddC x y) w = radd (form u x w) (form u y w)) ->
+    (forall s u x w, form u (vscaleC s x) w = rmul s (form u x w)) ->
+    forall tp ref ls (CE : C01_Assembly.basis R VC) (b : nat -> C01_Assembly.basis R VV) (b0 : C01_Assembly.basis R VV)
+           (rest : list (C01_Assembly.basis R VV)) (w : nat -> nat -> W) (uE vE uB vB : nat -> R),
+    let bs := b0 :: rest in
+    composite_setting R VV VC inj tp ref ls CE b ->
+    (length bs = length ls /\ forall n, n < length bs -> nth n bs b0 = b n) ->
+    (forall n, n < length bs -> wf_basis (nth n bs b0) /\ bnelems (nth n bs b0) = bnelems b0 /\ bnq (nth n bs b0) = bnq b0) ->
+    (wf_basis CE /\ bnelems CE = bnelems b0 /\ bnq CE = bnq b0 /\ ncells tp = bnelems b0 /\
+     (forall e q, e < bnelems b0 -> q < bnq b0 -> bdx CE e q = bdx b0 e q)) ->
+    (forall n k, n < length bs -> k < bN (nth n bs b0) -> uE (nth k (gen_composite_split tp ls n) 0) = uB (psum (fun m => bN (nth m bs b0)) n + k)) ->
+    (forall n k, n < length bs -> k < bN (nth n bs b0) -> vE (nth k (gen_composite_split tp ls n) 0) = vB (psum (fun m => bN (nth m bs b0)) n + k)) ->
+    exists CB cE AE cB AB,
+      gen_composite_basis R VV VC inj b0 rest false = Some CB /\
+      gen_bilinear_assemble R rO radd rmul VC W form w CE None = Some cE /\ gen_to_dense2 R rO radd cE = Some AE /\
+      gen_bilinear_assemble R rO radd rmul VC W form w CB None = Some cB /\ gen_to_dense2 R rO radd cB = Some AB /\
+      vAu R rO radd rmul vE AE uE (bN CE) (bN CE) = vAu R rO radd rmul vB AB uB (bN CB) (bN CB).
+  Proof. exact (gen_compositebasis_is_permuted_elementcomposite R rO rI radd rmul rsub ropp Rth VV VC W vaddC vscaleC inj). Qed.
 End C19.
+
+(* ---------- Form.block: the regenerated wrapper form.block(bt, a) (slot bt / a of the M trial / test fields, zeros() elsewhere)
+   assembled on the component bases gives the (a, bt) block of the coupling matrix on the CompositeBasis ---------- *)
+Section C19FormBlock.
+  Variable R : Type.
+  Variables (rO rI : R) (radd rmul rsub : R -> R -> R) (ropp : R -> R).
+  Variable Rth : ring_theory rO rI radd rmul rsub ropp (@eq R).
+  Variables V W : Type.
+  Variables (vadd : V -> V -> V) (vscale : R -> V -> V) (vaddC : list V -> list V -> list V) (vscaleC : R -> list V -> list V).
+  Variable vzero : V -> V.
+  Variable M : nat.
+
+  Theorem C19_form_block : forall (b0 : C01_Assembly.basis R V) (rest : list (C01_Assembly.basis R V)) (form : list V -> list V -> W -> R)
+      (a bt : nat) (w : nat -> nat -> W) (uC vC ub va : nat -> R),
+    let bs := b0 :: rest in
+    (forall n, n < length bs -> wf_basis (nth n bs b0) /\ bnelems (nth n bs b0) = bnelems b0 /\ bnq (nth n bs b0) = bnq b0) ->
+    (forall x y v w, form (vaddC x y) v w = radd (form x v w) (form y v w)) ->
+    (forall s x v w, form (vscaleC s x) v w = rmul s (form x v w)) ->
+    (forall u x y w, form u (vaddC x y) w = radd (form u x w) (form u y w)) ->
+    (forall s u x w, form u (vscaleC s x) w = rmul s (form u x w)) ->
+    (forall n x y, block_pad V vzero M n (vadd x y) = vaddC (block_pad V vzero M n x) (block_pad V vzero M n y)) ->
+    (forall n s x, block_pad V vzero M n (vscale s x) = vscaleC s (block_pad V vzero M n x)) ->
+    a < length bs -> bt < length bs ->
+    (forall e q, e < bnelems b0 -> q < bnq b0 -> bdx (nth bt bs b0) e q = bdx b0 e q) ->
+    cb_supported R rO V b0 rest uC bt ub -> cb_supported R rO V b0 rest vC a va ->
+    exists C cC AC cab Aab,
+      gen_composite_basis R V (list V) (block_pad V vzero M) b0 rest false = Some C /\
+      gen_bilinear_assemble R rO radd rmul (list V) W form w C None = Some cC /\ gen_to_dense2 R rO radd cC = Some AC /\
+      gen_bilinear_assemble R rO radd rmul V W (gen_form_block vzero form M [bt; a]) w (nth bt bs b0) (Some (nth a bs b0)) = Some cab /\
+      gen_to_dense2 R rO radd cab = Some Aab /\
+      vAu R rO radd rmul vC AC uC (bN C) (bN C) = vAu R rO radd rmul va Aab ub (bN (nth a bs b0)) (bN (nth bt bs b0)).
+  Proof. exact (gen_form_block_assembly R rO rI radd rmul rsub ropp Rth V W vadd vscale vaddC vscaleC vzero M). Qed.
+End C19FormBlock.
+
+(* ---------- COOData.tolocal(basis=facet basis): scatter out[find] = local and per-cell sum over t2f ---------- *)
+Theorem C19_facet_scatter : forall (R : Type) (zero : list (list R)) (add : list (list R) -> list (list R) -> list (list R)),
+  (forall idx vals out k d, NoDup idx -> length vals = length idx -> (forall i, In i idx -> i < length out) -> k < length idx ->
+     nth (nth k idx 0) (gen_scatter_set R idx vals out) d = nth k vals d) /\
+  (forall idx vals i v out d, length vals = length idx -> i < length out ->
+     nth i (gen_scatter_set R (idx ++ [i]) (vals ++ [v]) out) d = v) /\
+  (forall idx vals f d out, ~ In f idx -> nth f (gen_scatter_set R idx vals out) d = nth f out d) /\
+  (forall nfacets ncells find local t2f e d, e < ncells ->
+     nth e (gen_facet_sum R zero add nfacets ncells find local t2f) d
+     = fold_right add zero (map (fun row => nth (nth e row 0) (gen_scatter_set R find local (repeat zero nfacets)) zero) t2f)).
+Proof. exact gen_facet_scatter_spec. Qed.
 
 Print Assumptions C19_vector_decode.
 Print Assumptions C19_vector_decode_bijection.
@@ -245,6 +337,10 @@ Print Assumptions C19_block_assembly.
 Print Assumptions C19_compositebasis_blocks.
 Print Assumptions C19_compositebasis_rejects.
 Print Assumptions C19_inverse_spec.
+Print Assumptions C19_shared_dofs_matrix_is_sum.
+Print Assumptions C19_compositebasis_permutation.
+Print Assumptions C19_form_block.
+Print Assumptions C19_facet_scatter.
 
 (* ---------- non-vacuity: a rectangular (Nu = 2, Nv = 3), 2-cell, non-symmetric instance over Z ---------- *)
 Definition exV := (Z * Z)%type.
